@@ -962,9 +962,17 @@ def service_shadow_stage(c, algorithm, n_cases, tmpdir, dumps_seen):
       c.sample({'service-vs-live-designer': {k: case[k] for k in ('algorithm', 'space')}, 'n_steps': len(steps), 'first_batch': recs[0]['svc']})
     if algorithm == 'NSGA2':
       for i, r in enumerate(recs):
-        if r['svc_dump'] != r['live_dump']:
+        sp = [e for e in r['svc_dump'] if e[0] != '|num_trials_seen']
+        lp = [e for e in r['live_dump'] if e[0] != '|num_trials_seen']
+        if sp != lp:
           c.prop_fail('nsga2-service-population-mismatch', 'NSGA2 through the service: population in study metadata after request %d differs from the live designer fed the same trials' % i,
-                      dict(case, step=i, service=short(r['svc_dump'], 2000), live=short(r['live_dump'], 2000)))
+                      dict(case, step=i, service=short(sp, 2000), live=short(lp, 2000)))
+          break
+        ss, ls = dict(r['svc_dump']).get('|num_trials_seen'), dict(r['live_dump']).get('|num_trials_seen')
+        if ss != ls:
+          c.prop_fail(KEY_EVO_SEEN if not dumps_seen else 'nsga2-service-counter-mismatch',
+                      'NSGA2 through the service: after request %d the persisted trial counter is %s, the live designer fed the same trials has %s' % (i, ss, ls),
+                      dict(case, step=i, service=ss, live=ls))
           break
       for i, r in enumerate(recs):
         if r['svc_probe']['phase'] != r['live_probe']['phase']:
